@@ -37,6 +37,8 @@ ASSUMPTIONS = [
     "flat index = position in the face-major, then depth, then amount sequence (utils docstrings)",
     "sliding: 'up' = towards the first printed row (row - 1), 'right' = column + 1; a move off the board "
     "is ignored; goal = 1..n^2-1 in reading order with the hole last",
+    "the solved test must reject every sticker array with a non-uniform face, also recolourings that are not reachable by "
+    "moves (single stickers; pairs that keep a face's sum or xor): 'accepts exactly the goal configuration'",
     "termination / sparse reward are checked as functions of the returned state only "
     "(done = solved or step_count >= time_limit), also on steps taken after an episode has ended",
     "the scramble sequence is taken from ScramblingGenerator.generate_actions_for_scramble with the "
@@ -218,6 +220,29 @@ def eval_cube_perturb(case):
             p = base.copy()
             p.reshape(-1)[idx] = (p.reshape(-1)[idx] + delta) % 6
             variants.append(p)
+    names = [None] * len(variants)
+    # two-sticker recolourings of one face that keep aggregate statistics of the face (sum / mean: +d and -d;
+    # xor / parity / count-of-distinct-pairs: both stickers to the same other colour): a solved test that looks
+    # at an aggregate instead of every sticker accepts them
+    for f in range(6):
+        face = base[f].reshape(-1)
+        cells = [(i, j) for i in range(n * n) for j in range(i + 1, n * n)]
+        if len(cells) > 400:
+            cells = cells[:: max(1, len(cells) // 400)]
+        for i, j in cells:
+            ci, cj = int(face[i]), int(face[j])
+            for d in (1, 2):
+                if ci + d <= 5 and cj - d >= 0:
+                    p = base.copy()
+                    p[f].reshape(-1)[i], p[f].reshape(-1)[j] = ci + d, cj - d
+                    variants.append(p)
+                    names.append(f"face {f}: stickers {i} and {j} recoloured +{d} / -{d}")
+            other = (ci + 1) % 6
+            p = base.copy()
+            p[f].reshape(-1)[i] = other
+            p[f].reshape(-1)[j] = other
+            variants.append(p)
+            names.append(f"face {f}: stickers {i} and {j} both recoloured to {other}")
     arr = np.stack(variants, 0)
     got = np.asarray(k.is_solved_batch(jnp.asarray(arr, jnp.int8))).astype(bool)
     fails = []
@@ -227,7 +252,7 @@ def eval_cube_perturb(case):
         if bool(got[i]) != want:
             nbad += 1
             if nbad == 1:
-                what = "base cube" if i == 0 else \
+                what = "base cube" if i == 0 else names[i] if names[i] else \
                     f"sticker {tuple(int(x) for x in np.unravel_index((i - 1) // 5, (6, n, n)))} recoloured +{(i - 1) % 5 + 1}"
                 fails.append(("is_solved.perturbed" if i else "is_solved",
                               "accepts a non-uniform cube" if got[i] else "rejects a face-uniform cube",
